@@ -465,3 +465,191 @@ pub fn run_light(ctx: &mut Ctx, setup: &mut Setup, fp: &FamParams, extra_k: u32,
         }
     }
 }
+
+// ---------------------------------------------------------------------------------------------
+// The verifier circuit over the foreign-curve back-end (layout of the repository's
+// `test_verify_proof`): accumulator collapsed in-circuit, instance = (vk identity, accumulator).
+// ---------------------------------------------------------------------------------------------
+
+use midnight_circuits::{
+    ecc::{
+        curves::CircuitCurve,
+        foreign::{nb_foreign_ecc_chip_columns, ForeignEccChip, ForeignEccConfig},
+    },
+    field::{
+        decomposition::{
+            chip::{P2RDecompositionChip, P2RDecompositionConfig},
+            pow2range::Pow2RangeChip,
+        },
+        foreign::FieldChip,
+        NativeGadget,
+    },
+    hash::poseidon::PoseidonState,
+    verifier::BlstrsEmulation,
+};
+
+type Foreign = BlstrsEmulation;
+type CBase = <C as CircuitCurve>::Base;
+type NG = NativeGadget<F, P2RDecompositionChip<F>, NativeChip<F>>;
+
+#[derive(Clone, Debug)]
+pub struct ForeignVerifierCircuit {
+    pub inner_vk: (EvaluationDomain<F>, ConstraintSystem<F>, Value<F>),
+    pub committed: Vec<Value<C>>,
+    pub instances: Vec<Vec<Value<F>>>,
+    pub proof: Value<Vec<u8>>,
+}
+
+impl Circuit<F> for ForeignVerifierCircuit {
+    type Config = (NativeConfig, P2RDecompositionConfig, ForeignEccConfig<C>, PoseidonConfig<F>);
+    type FloorPlanner = SimpleFloorPlanner;
+    type Params = ();
+
+    fn without_witnesses(&self) -> Self {
+        unreachable!()
+    }
+
+    fn configure(meta: &mut ConstraintSystem<F>) -> Self::Config {
+        let nb_advice_cols = nb_foreign_ecc_chip_columns::<F, C, C, NG>();
+        let nb_fixed_cols = NB_ARITH_COLS + 4;
+        let advice_columns: Vec<_> = (0..nb_advice_cols).map(|_| meta.advice_column()).collect();
+        let fixed_columns: Vec<_> = (0..nb_fixed_cols).map(|_| meta.fixed_column()).collect();
+        let committed_instance_column = meta.instance_column();
+        let instance_column = meta.instance_column();
+        let native_config = NativeChip::configure(
+            meta,
+            &(
+                advice_columns[..NB_ARITH_COLS].try_into().unwrap(),
+                fixed_columns[..NB_ARITH_COLS + 4].try_into().unwrap(),
+                [committed_instance_column, instance_column],
+            ),
+        );
+        let core_decomp_config = {
+            let pow2_config = Pow2RangeChip::configure(meta, &advice_columns[1..NB_ARITH_COLS]);
+            P2RDecompositionChip::configure(meta, &(native_config.clone(), pow2_config))
+        };
+        let base_config = FieldChip::<F, CBase, C, NG>::configure(meta, &advice_columns);
+        let curve_config = ForeignEccChip::<F, C, C, NG, NG>::configure(meta, &base_config, &advice_columns);
+        let poseidon_config = PoseidonChip::configure(
+            meta,
+            &(
+                advice_columns[..NB_POSEIDON_ADVICE_COLS].try_into().unwrap(),
+                fixed_columns[..NB_POSEIDON_FIXED_COLS].try_into().unwrap(),
+            ),
+        );
+        (native_config, core_decomp_config, curve_config, poseidon_config)
+    }
+
+    fn synthesize(&self, config: Self::Config, mut layouter: impl Layouter<F>) -> Result<(), Error> {
+        let native_chip = <NativeChip<F> as ComposableChip<F>>::new(&config.0, &());
+        let core_decomp_chip = P2RDecompositionChip::new(&config.1, &16);
+        let native_gadget = NativeGadget::new(core_decomp_chip.clone(), native_chip.clone());
+        let curve_chip = ForeignEccChip::new(&config.2, &native_gadget, &native_gadget);
+        let poseidon_chip = PoseidonChip::new(&config.3, &native_chip);
+        let verifier = VerifierGadget::<Foreign>::new(&curve_chip, &native_gadget, &poseidon_chip);
+
+        let vk: AssignedVk<Foreign> =
+            verifier.assign_vk_as_public_input(&mut layouter, "inner_vk", &self.inner_vk.0, &self.inner_vk.1, self.inner_vk.2)?;
+        let committed = self
+            .committed
+            .iter()
+            .map(|p| curve_chip.assign(&mut layouter, *p))
+            .collect::<Result<Vec<_>, Error>>()?;
+        let instances: Vec<Vec<AssignedNative<F>>> = self
+            .instances
+            .iter()
+            .map(|col| native_gadget.assign_many(&mut layouter, col))
+            .collect::<Result<_, Error>>()?;
+        let inst_refs: Vec<&[AssignedNative<F>]> = instances.iter().map(|c| &c[..]).collect();
+
+        let mut acc = verifier.prepare(&mut layouter, &vk, &committed, &inst_refs, self.proof.clone())?;
+        acc.collapse(&mut layouter, &curve_chip, &native_gadget)?;
+        verifier.constrain_as_public_input(&mut layouter, &acc)?;
+        core_decomp_chip.load(&mut layouter)
+    }
+}
+
+pub fn foreign_instance(inner: &Inner, acc: &Accumulator<Foreign>) -> Vec<F> {
+    let mut pi = AssignedVk::<Foreign>::as_public_input(inner.vk());
+    pi.extend(AssignedAccumulator::<Foreign>::as_public_input(acc));
+    pi
+}
+
+/// One inner circuit through the foreign-curve back-end at outer `k`.
+pub fn run_foreign(ctx: &mut Ctx, setup: &mut Setup, fp: &FamParams, extra_k: u32, seed: u64, outer_k: u32, n_mut: usize) {
+    type H = PoseidonState<F>;
+    let t0 = std::time::Instant::now();
+    let mut rng = ChaCha8Rng::seed_from_u64(seed ^ 0xf0e1);
+    let desc = json!({"backend": "foreign", "params": format!("{fp:?}"), "extra_k": extra_k, "seed": seed, "outer_k": outer_k});
+    let key = format!("foreign:nc={},npl={},nl={}", fp.n_committed, fp.n_plain, fp.lookups.len());
+    let inner = match make_inner::<H>(setup, fp, extra_k, seed) {
+        Ok(i) => i,
+        Err(e) => {
+            ctx.oracle_fail(&format!("inner-proof:{key}"), "key generation or honest inner proof failed", json!({"case": desc, "error": e}));
+            return;
+        }
+    };
+    ctx.count(&format!("foreign:inner_k={}", inner.k));
+    ctx.count(&format!("foreign:lookups={}", fp.lookups.len()));
+    let params = setup.get(inner.k).clone();
+    let (g, off_tokens) = match off_circuit::<H>(&inner, &inner.insts, &inner.commitments, &inner.proof) {
+        Ok(x) => x,
+        Err(e) => {
+            ctx.oracle_fail(&format!("inner-rejected:{key}"), "off-circuit prepare fails on an honest inner proof", json!({"case": desc, "error": e}));
+            return;
+        }
+    };
+    if !g.clone().check(&params.verifier_params()) {
+        ctx.oracle_fail(&format!("inner-rejected:{key}"), "honest inner proof fails the pairing check", json!({"case": desc}));
+        return;
+    }
+    let fb = fixed_bases::<Foreign>("inner_vk", inner.vk());
+    let mut acc = Accumulator::<Foreign>::from_dual_msm(g.clone(), "inner_vk", &fb);
+    if !acc.check(&params.s_g2().into(), &fb) {
+        ctx.oracle_fail(&format!("acc-check:{key}"), "accumulator of an honest proof fails Accumulator::check", json!({"case": desc}));
+    }
+    acc.collapse();
+    let pi = foreign_instance(&inner, &acc);
+    let nc = fp.n_committed;
+    let circuit = ForeignVerifierCircuit {
+        inner_vk: (inner.vk().get_domain().clone(), inner.vk().cs().clone(), Value::known(inner.vk().transcript_repr())),
+        committed: inner.commitments.iter().map(|c| Value::known(*c)).collect(),
+        instances: inner.insts[nc..].iter().map(|c| c.iter().map(|v| Value::known(*v)).collect()).collect(),
+        proof: Value::known(inner.proof.clone()),
+    };
+    let (ok, log) = match mock(outer_k, &circuit, pi.clone()) {
+        Ok(x) => x,
+        Err(e) => {
+            ctx.oracle_fail(&format!("gadget-fails:{key}"), "the verifier circuit cannot be synthesised on an honest inner proof", json!({"case": desc, "error": e, "shape": inner.shape}));
+            return;
+        }
+    };
+    match gadget_tokens(&log) {
+        Ok((tokens, pieces)) => {
+            ctx.case("gadget-sched", true, &format!("gadget-sched {} {}", inner.shape, inner.cfg()), &tokens);
+            ctx.set_extra("foreign_point_pieces", json!(pieces));
+            if tokens != off_tokens {
+                ctx.oracle_fail(&format!("sched-differs:{key}"), "in-circuit and off-circuit verifiers perform different transcript operations", json!({"case": desc, "in": tokens, "off": off_tokens}));
+            }
+        }
+        Err(e) => ctx.oracle_fail("gadget-log", "malformed in-circuit transcript log", json!({"case": desc, "error": e})),
+    }
+    if !ok {
+        ctx.oracle_fail(&format!("acc-differs:{key}"), "verifier circuit unsatisfied with the off-circuit accumulator of an honest proof", json!({"case": desc, "shape": inner.shape}));
+        return;
+    }
+    ctx.count("foreign:honest-accepted");
+    ctx.count_n("foreign:pi_len", pi.len() as u64);
+    for m in 0..n_mut {
+        let idx = if m == 0 { 0 } else { rng.gen_range(1..pi.len()) };
+        let mut pi2 = pi.clone();
+        pi2[idx] += F::ONE;
+        ctx.count(if idx > 0 { "foreign:claimed-acc-altered" } else { "foreign:claimed-vk-altered" });
+        match mock(outer_k, &circuit, pi2) {
+            Ok((false, _)) => {}
+            Ok((true, _)) => ctx.oracle_fail(&format!("accepts-other-instance:{key}"), "verifier circuit satisfied with an altered claimed accumulator / vk identity", json!({"case": desc, "index": idx})),
+            Err(e) => ctx.oracle_fail(&format!("gadget-fails:{key}"), "verifier circuit fails to synthesise", json!({"case": desc, "error": e})),
+        }
+    }
+    ctx.set_extra(&format!("foreign_seconds_seed{seed}"), json!(t0.elapsed().as_secs()));
+}
